@@ -27,6 +27,7 @@ type Property struct {
 }
 
 var verifDir = "/verif"
+var verboseAll bool
 
 type knownFinding struct {
 	Prop string
@@ -80,6 +81,7 @@ func main() {
 	listRules := flag.Bool("rules", false, "list rules per property")
 	only := flag.String("only", "", "run only this rule (debugging)")
 	selftest := flag.String("mutants", "", "run the mutant/variant self-test for this property id (or 'all') and print a table")
+	verbose := flag.Bool("v", false, "print every obligation")
 	manifest := flag.Bool("manifest", false, "print MANIFEST.json generated from the property table")
 	dump := flag.String("dump", "", "print the SSA of the module function with this key (debugging)")
 	flag.Parse()
@@ -150,6 +152,7 @@ func main() {
 		fmt.Fprintf(os.Stderr, "unknown property %q\n", *prop)
 		os.Exit(2)
 	}
+	verboseAll = *verbose
 	os.Exit(runProperty(p, *tier, *repo, *only))
 }
 
@@ -299,6 +302,11 @@ func runProperty(p *Property, tier, repo, only string) int {
 		case "known":
 			nKnown++
 			fmt.Printf("KNOWN-FINDING: property=%s %s [%s at %s]\n", p.ID, o.Note, o.ID(), o.Pos)
+		}
+	}
+	if verboseAll {
+		for _, o := range all {
+			fmt.Printf("    %-9s %s @%s :: %s\n", o.Status, o.ID(), o.Pos, o.Found)
 		}
 	}
 	for _, st := range stats {
